@@ -967,7 +967,7 @@ static size_t _GD_DoLincom(DIRFILE *restrict D, gd_entry_t *restrict E,
     }
 
     /* adjust n_read for a short read from field two */
-    if (n_read2 * spf[0] != n_read * spf[1])
+    if (n_read2 * spf[0] < n_read * spf[1])
       n_read = n_read2 * spf[0] / spf[1];
 
     /* Do the same for the third field, if needed */
@@ -993,7 +993,7 @@ static size_t _GD_DoLincom(DIRFILE *restrict D, gd_entry_t *restrict E,
         return 0;
       }
 
-      if (n_read3 * spf[0] != n_read * spf[2])
+      if (n_read3 * spf[0] < n_read * spf[2])
         n_read = n_read3 * spf[0] / spf[2];
     }
   }
